@@ -379,6 +379,9 @@ fn format(opt: opt::Opt) -> Result<i32> {
                                         convert_parse_error_to_json(file, err.to_vec());
                                     // Force write to stderr directly
                                     // TODO: can we do this through error! instead?
+                                    // We bypass the logger here, so we have to record the failure ourselves
+                                    EXIT_CODE.store(2, Ordering::SeqCst);
+
                                     let stderr = stderr();
                                     let mut handle = stderr.lock();
                                     match handle.write_all(structured_err.to_string().as_bytes()) {
